@@ -40,6 +40,8 @@ def close(got: float, want: Fraction, rel: float) -> bool:
 def replay(chk, cases, variants):
     m = impl.pb()
     U = m.Unit
+    from pbv import units as UA_
+    dist_all = UA_.distance_variants()
     for ci, c in enumerate(cases):
         # the constructor re-displays the click sizes in PreferredUnits.adjustment: also under the tangent-based units
         # (every 3rd / 5th case), and with the caller re-displaying the click object it passed in afterwards
@@ -74,7 +76,13 @@ def replay(chk, cases, variants):
                 hclick << U.CmPer100m
                 chk.stratum("caller_redisplays_click")
             want_v, want_h = Fraction(*c["v"]), Fraction(*c["h"])
-            tgt = dist_unit(float(c["tgt"] * dist_per_yd))
+            # the target distance in another unit than the calibration distance for every other case
+            if ci % 2:
+                tgt_unit, tgt_per_yd = dist_all[(ci // 2) % len(dist_all)]
+                tgt = tgt_unit(float(c["tgt"] * tgt_per_yd))
+                chk.stratum("target_and_calibration_in_different_units")
+            else:
+                tgt = dist_unit(float(c["tgt"] * dist_per_yd))
             vc = ang_unit(float(c["vcorr"] * ang_per_mil))
             hc = ang_unit(float(c["hcorr"] * ang_per_mil))
             row = impl.make_row(distance=tgt, drop_adj=vc, windage_adj=hc)
@@ -121,7 +129,8 @@ def run(chk: core.Check, replay_path=None, **_):
     for x in cases[:: max(1, len(cases) // 4)][:4]:
         chk.sample(x)
     core.reset_world()
-    chk.require_strata(["rejected", "FFP", "SFP", "LWIR", "pref_adjustment_tangent_unit", "caller_redisplays_click"])
+    chk.require_strata(["rejected", "FFP", "SFP", "LWIR", "pref_adjustment_tangent_unit", "caller_redisplays_click",
+                        "target_and_calibration_in_different_units"])
     chk.extra["unit_variants"] = [f"{a[0]}/{d[0]}" for a, d in variants]
     chk.rule.append("every (focal plane, click sizes, calibration distance) x (target distance, magnification, corrections) of the "
                     "bounded Sight model, each in several angular/distance units and through both entry points; "
